@@ -350,6 +350,106 @@ def swap_if_else(sources: Dict[str, str]) -> Dict[str, str]:
     return out
 
 
+def sort_methods(sources: Dict[str, str]) -> Dict[str, str]:
+    """Methods of every class in reverse source order (class-level assignments stay in front)."""
+    out = {}
+    for p, s in sources.items():
+        tree = ast.parse(s)
+        for n in ast.walk(tree):
+            if isinstance(n, ast.ClassDef):
+                defs = [b for b in n.body if isinstance(b, (ast.FunctionDef, ast.AsyncFunctionDef)) and not any(
+                    isinstance(d, ast.Attribute) and d.attr in ("setter", "getter", "deleter") for d in b.decorator_list)]
+                keep = [b for b in n.body if b not in defs]
+                if len(defs) > 1 and not any(isinstance(b, (ast.FunctionDef, ast.AsyncFunctionDef)) for b in keep):
+                    # class-level statements that use a method (name = staticmethod(f)) would break: only classes where all non-def statements precede the defs
+                    idx_last_keep = max([n.body.index(b) for b in keep], default=-1)
+                    idx_first_def = min(n.body.index(b) for b in defs)
+                    if idx_last_keep < idx_first_def:
+                        n.body = keep + list(reversed(defs))
+        ast.fix_missing_locations(tree)
+        out[p] = ast.unparse(tree)
+    return out
+
+
+def keywords_at_call_sites(sources: Dict[str, str]) -> Dict[str, str]:
+    """f(a, b) -> f(x=a, y=b) for calls of package functions whose name is defined exactly once in the package
+    (plain-name calls and self.method calls; no *args / positional-only parameters)."""
+    defs: Dict[str, list] = {}
+    trees = {p: ast.parse(s) for p, s in sources.items()}
+    for p, tree in trees.items():
+        for n in ast.walk(tree):
+            if isinstance(n, (ast.FunctionDef, ast.AsyncFunctionDef)):
+                defs.setdefault(n.name, []).append(n)
+            elif isinstance(n, ast.ClassDef):
+                defs.setdefault(n.name, []).append(n)  # a class of that name: constructor call, leave alone
+    out = {}
+    for p, tree in trees.items():
+        for n in ast.walk(tree):
+            if not isinstance(n, ast.Call) or not n.args or any(isinstance(a, ast.Starred) for a in n.args):
+                continue
+            is_self = isinstance(n.func, ast.Attribute) and isinstance(n.func.value, ast.Name) and n.func.value.id == "self"
+            name = n.func.id if isinstance(n.func, ast.Name) else n.func.attr if is_self else None
+            ds = defs.get(name or "", [])
+            if len(ds) != 1 or not isinstance(ds[0], (ast.FunctionDef, ast.AsyncFunctionDef)):
+                continue
+            d = ds[0]
+            if d.args.posonlyargs or d.args.vararg or d.decorator_list:
+                continue
+            params = [a.arg for a in d.args.args]
+            if is_self:
+                if not params or params[0] not in ("self", "cls"):
+                    continue
+                params = params[1:]
+            elif params and params[0] in ("self", "cls"):
+                continue
+            if len(n.args) > len(params) or any(k.arg in params[:len(n.args)] for k in n.keywords if k.arg):
+                continue
+            n.keywords = [ast.keyword(arg=params[i], value=a) for i, a in enumerate(n.args)] + n.keywords
+            n.args = []
+        ast.fix_missing_locations(tree)
+        out[p] = ast.unparse(tree)
+    return out
+
+
+def positional_at_call_sites(sources: Dict[str, str]) -> Dict[str, str]:
+    """f(a, y=b) -> f(a, b) where y is the next positional parameter of a package function whose name is defined once."""
+    defs: Dict[str, list] = {}
+    trees = {p: ast.parse(s) for p, s in sources.items()}
+    for p, tree in trees.items():
+        for n in ast.walk(tree):
+            if isinstance(n, (ast.FunctionDef, ast.AsyncFunctionDef, ast.ClassDef)):
+                defs.setdefault(n.name, []).append(n)
+    out = {}
+    for p, tree in trees.items():
+        for n in ast.walk(tree):
+            if not isinstance(n, ast.Call) or not n.keywords or any(isinstance(a, ast.Starred) for a in n.args):
+                continue
+            is_self = isinstance(n.func, ast.Attribute) and isinstance(n.func.value, ast.Name) and n.func.value.id == "self"
+            name = n.func.id if isinstance(n.func, ast.Name) else n.func.attr if is_self else None
+            ds = defs.get(name or "", [])
+            if len(ds) != 1 or not isinstance(ds[0], (ast.FunctionDef, ast.AsyncFunctionDef)):
+                continue
+            d = ds[0]
+            if d.args.posonlyargs or d.args.vararg or d.decorator_list:
+                continue
+            params = [a.arg for a in d.args.args]
+            if is_self:
+                if not params or params[0] not in ("self", "cls"):
+                    continue
+                params = params[1:]
+            elif params and params[0] in ("self", "cls"):
+                continue
+            while len(n.args) < len(params):
+                kw = [k for k in n.keywords if k.arg == params[len(n.args)]]
+                if len(kw) != 1:
+                    break
+                n.keywords.remove(kw[0])
+                n.args.append(kw[0].value)
+        ast.fix_missing_locations(tree)
+        out[p] = ast.unparse(tree)
+    return out
+
+
 def rename_all_locals(sources: Dict[str, str]) -> Dict[str, str]:
     out = {}
     for p, s in sources.items():
@@ -409,6 +509,12 @@ def _worker(args):
             overlay = annotate_single_assignments(sources)
         elif m.old == "<pass-between-statements>":
             overlay = pass_between_statements(sources)
+        elif m.old == "<reverse-methods>":
+            overlay = sort_methods(sources)
+        elif m.old == "<positional-at-call-sites>":
+            overlay = positional_at_call_sites(sources)
+        elif m.old == "<keywords-at-call-sites>":
+            overlay = keywords_at_call_sites(sources)
         elif m.old == "<swap-if-else>":
             overlay = swap_if_else(sources)
         elif m.old == "<log-at-function-start>":
@@ -449,6 +555,9 @@ GENERIC = [
     M("rename every local variable in every function", "", None, "<rename-all-locals>", "", kind="equiv"),
     M("insert a pass statement between every two statements of every function", "", None, "<pass-between-statements>", "", kind="equiv"),
     M("put a logging call at the start of every function", "", None, "<log-at-function-start>", "", kind="equiv"),
+    M("positional arguments of package calls written as keywords", "", None, "<keywords-at-call-sites>", "", kind="equiv"),
+    M("leading keyword arguments of package calls written positionally", "", None, "<positional-at-call-sites>", "", kind="equiv"),
+    M("methods of every class in reverse source order", "", None, "<reverse-methods>", "", kind="equiv"),
     M("swap the branches of every plain if/else under the negated test", "", None, "<swap-if-else>", "", kind="equiv"),
     M("annotate every local that is assigned once (x = v  ->  x: object = v)", "", None, "<annotate-single-assignments>", "", kind="equiv"),
 ]
